@@ -323,6 +323,9 @@ func isASCII(s string) bool {
 }
 
 func yamlKey(s string) string {
+	if s == "<<" {
+		return s // the YAML merge key, written plain (quoted it would be an ordinary string)
+	}
 	b, _ := json.Marshal(s) // a JSON string is a YAML double-quoted scalar
 	return string(b)
 }
@@ -998,6 +1001,8 @@ func main() {
 		}
 		sort.Strings(r.pool)
 	}
+	// keys with a meaning of their own in YAML (merge key, null, booleans, numbers): foreign all the same
+	r.pool = append(r.pool, "<<", "~", "null", "true", "1", "=")
 
 	type input struct {
 		name string
